@@ -83,18 +83,26 @@ impl C20 {
             if f.farms != rf.farms || f.positions != rf.positions {
                 errs.push("farms / positions differ from the unblocked run".to_string());
             }
-            let refund: u128 = reference.log().iter().filter(|e| e.to == x.as_str() && e.from == w.fm.as_str()).flat_map(|e| e.coins.iter()).filter(|c| c.denom == "uusdc").map(|c| c.amount.u128()).sum();
+            // every refund the unblocked run sent to the blocked owner (it may own several of
+            // the farms that expired meanwhile, paying different tokens) stays in the contract
+            let mut blocked: BTreeMap<String, u128> = BTreeMap::new();
+            for e in reference.log().iter().filter(|e| e.to == x.as_str() && e.from == w.fm.as_str()) {
+                for c in &e.coins {
+                    *blocked.entry(c.denom.clone()).or_default() += c.amount.u128();
+                }
+            }
             for (acct, bals) in &ro.bal {
                 for (d, amt) in bals {
                     let mut exp = *amt as i128;
-                    if d == "uusdc" && acct == x.as_str() {
-                        exp -= refund as i128;
+                    let b = blocked.get(d).copied().unwrap_or(0) as i128;
+                    if acct == x.as_str() {
+                        exp -= b;
                     }
-                    if d == "uusdc" && acct == w.fm.as_str() {
-                        exp += refund as i128;
+                    if acct == w.fm.as_str() {
+                        exp += b;
                     }
                     if o.bal.get(acct).and_then(|m| m.get(d)).copied().unwrap_or(0) as i128 != exp {
-                        errs.push(format!("balance of {} in {d} differs from the unblocked run beyond the refund", w.name_of(acct)));
+                        errs.push(format!("balance of {} in {d} differs from the unblocked run beyond the blocked refunds", w.name_of(acct)));
                     }
                 }
             }
